@@ -29,13 +29,23 @@ func VerifRoot() string {
 	return "/verif"
 }
 
+// LoadFindings reads known-findings.json and every known-findings.d/*.json (same format) under the verif root.
 func LoadFindings() FindingsFile {
 	var f FindingsFile
-	b, err := os.ReadFile(filepath.Join(VerifRoot(), "known-findings.json"))
-	if err != nil {
-		return f
+	files := []string{filepath.Join(VerifRoot(), "known-findings.json")}
+	more, _ := filepath.Glob(filepath.Join(VerifRoot(), "known-findings.d", "*.json"))
+	files = append(files, more...)
+	for _, p := range files {
+		b, err := os.ReadFile(p)
+		if err != nil {
+			continue
+		}
+		var g FindingsFile
+		if json.Unmarshal(b, &g) == nil {
+			f.Findings = append(f.Findings, g.Findings...)
+			f.Fixed = append(f.Fixed, g.Fixed...)
+		}
 	}
-	json.Unmarshal(b, &f)
 	return f
 }
 
